@@ -380,15 +380,24 @@ static void run_nlsf2a(uint64_t seed, long n)
          if (vchance(&r, 50)) { opus_int16 dm[MAX_LPC_ORDER + 1]; gen_delta(&r, dm, d, wb); silk_NLSF_stabilize(x, dm, d); }
          do_nlsf2a(x, d);
       } else if (kind == 10) {                          /* LPC_fit / bwexpander_32 on random QA+1 filters */
-         int mag = 1 << vrange(&r, 10, 29);
-         for (i = 0; i < d; i++) a32[i] = (opus_int32)vrange(&r, -mag, mag);
+         /* magnitudes over the whole domain of theorem lpc_fit_int16 (|a| <= 2^31 - 1), with the edges of the
+            limiter (32767.5 and 163838 in Q12, i.e. *32 in Q17) and of opus_int32 */
+         static const long long edges[] = {1048559, 1048560, 1048575, 1048576, 1048592, 5242816, 5242848, 1073741824LL, 2147483647LL};
+         long long mag = vchance(&r, 70) ? (1LL << vrange(&r, 10, 31)) - 1 : edges[vbelow(&r, sizeof(edges) / sizeof(edges[0]))];
+         int dense = vchance(&r, 50);
+         for (i = 0; i < d; i++) {
+            long long v = (long long)(vnext(&r) % (uint64_t)(2 * mag + 1)) - mag;
+            if (!dense && vchance(&r, 60)) v /= 1 + (long long)vbelow(&r, 1000);   /* a few dominant coefficients */
+            if (vchance(&r, 10)) v = vchance(&r, 50) ? mag : -mag;
+            a32[i] = (opus_int32)v;
+         }
          do_lpcfit(a32, d);
          for (i = 0; i < d; i++) a32[i] = (opus_int32)vrange(&r, -(1 << 28), 1 << 28);
          do_bwexp32(a32, d, vchance(&r, 70) ? 65536 - (2 << vbelow(&r, 16)) : vrange(&r, 0, 65536));
       } else {                                          /* inverse prediction gain on random Q12 filters */
-         int mag = 1 << vrange(&r, 4, 13), ord = vchance(&r, 80) ? d : vrange(&r, 1, 24);
+         int mag = (1 << vrange(&r, 4, 15)) - 1, ord = vchance(&r, 80) ? d : vrange(&r, 1, 24);
          opus_int16 q[24];
-         for (i = 0; i < ord; i++) q[i] = (opus_int16)vrange(&r, -mag, mag);
+         for (i = 0; i < ord; i++) q[i] = (opus_int16)vrange(&r, -mag - 1, mag);     /* up to the whole opus_int16 range */
          if (vchance(&r, 30)) { sorted_nlsf(&r, z, d); silk_NLSF2A(q, z, d, 0); ord = d; if (vchance(&r, 50)) q[vbelow(&r, d)] += (opus_int16)vrange(&r, -64, 64); }
          do_invgain(q, ord);
       }
